@@ -91,6 +91,17 @@ def quiet_imports():
 # ----------------------------------------------------------------------------------------------
 # seeds
 # ----------------------------------------------------------------------------------------------
+def budget(tier: str, explicit=None, quick: float = 420.0, thorough: float = 2400.0) -> float:
+    """Wall-clock budget of a check's worker pools.  On the reference machine every quick batch ends
+    well inside it; it only cuts runs on a machine several times slower (the cut is reported)."""
+    if explicit:
+        return float(explicit)
+    env = os.environ.get("VERIF_BUDGET_S")
+    if env:
+        return float(env)
+    return quick if tier == "quick" else thorough
+
+
 def master_seed(default: int) -> int:
     v = os.environ.get("VERIF_SEED")
     return int(v) if v not in (None, "") else default
